@@ -18,6 +18,7 @@ import torch
 from gymnasium import spaces
 from hypothesis import strategies as st
 
+from vp.core import engine
 from vp.core.engine import HarnessError, Obligation, Property, Violation, _AbortCase, site_of
 from vp.gen import agents as ag
 from vp.gen import spaces as sp
@@ -861,7 +862,7 @@ def prep_strategy(draw, tier):
 
 @st.composite
 def agent_strategy(draw, tier):
-    algo = draw(st.sampled_from(SINGLE))
+    algo = draw(st.sampled_from(engine.stratum(SINGLE)))
     fam = draw(st.sampled_from(["vector", "image", "dict", "tuple", "discrete", "multidiscrete", "multibinary", "sequence"]))
     spec = {"algo": algo, "obs": fam, "obsv": draw(st.integers(0, 2)), "actv": draw(st.integers(0, 2)),
             "seed": draw(st.integers(0, 999))}
@@ -881,7 +882,7 @@ def agent_strategy(draw, tier):
 
 @st.composite
 def multi_strategy(draw, tier):
-    algo = draw(st.sampled_from(MULTI))
+    algo = draw(st.sampled_from(engine.stratum(MULTI)))
     if algo == "IPPO":
         fam = draw(st.sampled_from(IPPO_FAMS))
         act = draw(st.sampled_from(["discrete", "discrete", "multidiscrete", "box"]))
